@@ -56,12 +56,25 @@ def configs(ctx):
         for K in Ks:
             for regime in regimes:
                 for box in boxes:
-                    yield fam, False, K, regime, box, None
+                    yield fam, False, K, regime, box, None, None
                 for B in tbs:
-                    yield fam, True, K, regime, None, B
+                    yield fam, True, K, regime, None, B, None
+    # non-default minimal widths / heights / derivatives (the exported functions accept them)
+    for fam in ('rq', 'quad', 'cubic'):
+        for K in (2, 5):
+            for regime in ('normal', 'onehot', 'wide'):
+                for mins in ({'min_bin_width': 0.02, 'min_bin_height': 0.05}, {'min_bin_width': 0.1, 'min_bin_height': 1e-3}):
+                    ex = dict(mins)
+                    if fam == 'rq':
+                        ex['min_derivative'] = 0.05
+                    yield fam, False, K, regime, boxes[1], None, ex
+                    yield fam, True, K, regime, None, tbs[-1], ex
+    for K in (2, 5):
+        for regime in ('zeros', 'normal'):
+            yield 'rq', True, K, regime, None, 1.0, {'enable_identity_init': True}
 
 
-def run_config(ctx, fam, tails, K, regime, box, B, gen, dtype=torch.float64, R=3, directions=(False, True)):
+def run_config(ctx, fam, tails, K, regime, box, B, gen, dtype=torch.float64, R=3, directions=(False, True), extra=None):
     params = S.make_params(fam, R, K, tails, regime, dtype, gen)
     x, kinds = _atoms(fam, params, tails, box, B, gen, dtype)
     A = x.shape[1]
@@ -71,7 +84,7 @@ def run_config(ctx, fam, tails, K, regime, box, B, gen, dtype=torch.float64, R=3
     for inverse in directions:
         if inverse:
             # in-range inputs of the inverse: push the forward atoms through the implementation
-            kind, y, _ = S.impl_call(fam, xf, flatp, False, tails, box, B)
+            kind, y, _ = S.impl_call(fam, xf, flatp, False, tails, box, B, extra=extra)
             if kind != 'ok':
                 continue
             lo, hi = (-B, B) if tails else (box[2], box[3])
@@ -84,27 +97,34 @@ def run_config(ctx, fam, tails, K, regime, box, B, gen, dtype=torch.float64, R=3
     return out
 
 
-def tol(y):
+def tol(y, fam=None, inverse=False):
+    # the cubic inverse (trigonometric / Cardano roots) is only accurate to ~sqrt(ulp) near a vanishing
+    # discriminant, in the implementation and in the model alike (libm differences are amplified)
+    if fam == 'cubic' and inverse:
+        return 2e-6 * (1.0 + abs(y))
     return 2e-9 * (1.0 + abs(y))
 
 
 def correspondence(ctx):
     gen = torch.Generator().manual_seed(ctx.seed * 7919 + 9)
     reqs, metas = [], []
-    for (fam, tails, K, regime, box, B) in configs(ctx):
+    for (fam, tails, K, regime, box, B, extra) in configs(ctx):
         cfg = S.defaults(fam, tails)
+        if extra:
+            cfg.update(extra)
         if not S.side_conditions(fam, tails, K, cfg):
             ctx.proof_broken.append('side conditions of Properties.C09.knots_valid fail for the defaults read from the code: %s %s' % (fam, cfg))
-        for (inverse, xin, flatp, kinds, A) in run_config(ctx, fam, tails, K, regime, box, B, gen):
-            kind, y, ld = S.impl_call(fam, xin, flatp, inverse, tails, box, B)
-            reqs.append(S.model_req(fam, xin, flatp, inverse, tails, box, B))
-            metas.append((fam, tails, K, regime, box, B, inverse, xin, kinds, A, kind, y))
+        for (inverse, xin, flatp, kinds, A) in run_config(ctx, fam, tails, K, regime, box, B, gen, extra=extra):
+            kind, y, ld = S.impl_call(fam, xin, flatp, inverse, tails, box, B, extra=extra)
+            reqs.append(S.model_req(fam, xin, flatp, inverse, tails, box, B, cfg=extra))
+            metas.append((fam, tails, K, regime, (box, tuple(sorted((extra or {}).items()))), B, inverse, xin, kinds, A, kind, y))
     resps = leandriver.call(reqs)
     for meta, resp in zip(metas, resps):
         fam, tails, K, regime, box, B, inverse, xin, kinds, A, kind, y = meta
         my, mld, merr, alts = S.model_result(resp, 'f64')
         n = xin.numel()
-        case = {'fam': fam, 'tails': tails, 'K': K, 'regime': regime, 'box': box, 'tail_bound': B, 'inverse': inverse}
+        box, extra_items = box
+        case = {'fam': fam, 'tails': tails, 'K': K, 'regime': regime, 'box': box, 'tail_bound': B, 'inverse': inverse, 'extra': dict(extra_items)}
         if kind != 'ok':
             bad = [e for e in merr if e]
             ctx.case(key=('err', fam, tails, K, regime, inverse, kind), branch='error:' + kind, n=n, sample=dict(case, impl=kind))
@@ -120,9 +140,9 @@ def correspondence(ctx):
                 ctx.case(n=1, branch='disagree')
                 continue
             cands = [my[i]] + (alts[i] if i < len(alts) else [])
-            ok = any(abs(c - yl[i]) <= tol(yl[i]) or (math.isnan(c) and math.isnan(yl[i])) for c in cands)
+            ok = any(abs(c - yl[i]) <= tol(yl[i], fam, inverse) or (math.isnan(c) and math.isnan(yl[i])) for c in cands)
             nontrivial = abs(yl[i] - xl[i]) > 1e-12
-            ctx.case(key=(fam, tails, K, regime, kd, inverse), branch='%s/%s/%s' % (fam, 'tails' if tails else 'box', kd),
+            ctx.case(key=(fam, tails, K, regime, kd, inverse, extra_items), branch='%s/%s/%s' % (fam, 'tails' if tails else 'box', kd),
                      nontrivial=nontrivial,
                      sample=dict(case, x=xl[i], atom=kd, impl=yl[i], model=my[i]) if i == 3 and len(ctx.samples) < 6 else None)
             if not ok:
@@ -131,7 +151,7 @@ def correspondence(ctx):
 
 
 # ---- the property's own oracle, used only to search for a failing input once something broke ----------------
-def oracle_config(ctx, fam, tails, K, regime, box, B, gen, npts=64):
+def oracle_config(ctx, fam, tails, K, regime, box, B, extra, gen, npts=64):
     dtype = torch.float64
     params = S.make_params(fam, 1, K, tails, regime, dtype, gen)
     lo, hi = (-B, B) if tails else (box[0], box[1])
@@ -142,8 +162,8 @@ def oracle_config(ctx, fam, tails, K, regime, box, B, gen, npts=64):
                       torch.nextafter(kn, -inf).clamp(lo, hi)])
     grid = torch.sort(grid).values
     fl = [p.expand(grid.numel(), -1) for p in params]
-    kind, y, ld = S.impl_call(fam, grid, fl, False, tails, box, B)
-    case = {'fam': fam, 'tails': tails, 'K': K, 'regime': regime, 'box': box, 'tail_bound': B,
+    kind, y, ld = S.impl_call(fam, grid, fl, False, tails, box, B, extra=extra)
+    case = {'fam': fam, 'tails': tails, 'K': K, 'regime': regime, 'box': box, 'tail_bound': B, 'extra': extra,
             'params_bits': [bits.tensor_bits(p) for p in params]}
     if fam == 'quad' and tails and K == 1:
         return  # constructor-level rejection (no interior heights): not a spline configuration
@@ -151,6 +171,8 @@ def oracle_config(ctx, fam, tails, K, regime, box, B, gen, npts=64):
         ctx.fail('in-domain grid rejected with %s' % kind, case, match={'fam': fam, 'symptom': 'raises'})
         return
     t = 1e-7 * (1 + abs(top) + abs(bot))
+    if not torch.isfinite(ld).all():
+        ctx.fail('non-finite log-abs-det inside the box', case, match={'fam': fam, 'symptom': 'non-finite-ld'}); return
     if not torch.isfinite(y).all():
         ctx.fail('non-finite output inside the box', case, match={'fam': fam, 'symptom': 'non-finite'}); return
     dy = y[1:] - y[:-1]
@@ -171,12 +193,12 @@ def oracle_config(ctx, fam, tails, K, regime, box, B, gen, npts=64):
     if tails:
         xt = torch.tensor([B * (1 + 1e-12) + 1e-300, -B * (1 + 1e-12), B + 1.0, -B - 2.5, 50.0 * B], dtype=dtype)
         xt = torch.where(xt.abs() <= B, torch.sign(xt) * torch.nextafter(torch.tensor(B, dtype=dtype), inf), xt)
-        kind, yt, ldt = S.impl_call(fam, xt, [p.expand(xt.numel(), -1) for p in params], False, tails, box, B)
+        kind, yt, ldt = S.impl_call(fam, xt, [p.expand(xt.numel(), -1) for p in params], False, tails, box, B, extra=extra)
         if kind != 'ok' or not torch.equal(yt, xt) or (ldt != 0).any():
             ctx.fail('tails are not the identity with zero log-abs-det', dict(case, x=xt.tolist()), match={'fam': fam, 'symptom': 'tails'}); return
         # continuity at the junction
         xb = torch.tensor([B, -B], dtype=dtype)
-        kind, yb, _ = S.impl_call(fam, xb, [p.expand(2, -1) for p in params], False, tails, box, B)
+        kind, yb, _ = S.impl_call(fam, xb, [p.expand(2, -1) for p in params], False, tails, box, B, extra=extra)
         if kind != 'ok' or (yb - xb).abs().max() > t:
             ctx.fail('not continuous at the tail bound', case, match={'fam': fam, 'symptom': 'junction'}); return
 
